@@ -129,7 +129,12 @@ PROPS = {
     },
     'C13': {
         'kani': [{'unit': 'gc_bitmask', 'mount': 'src/gc.rs', 'mod': 'verif_kani_gc_bitmask',
-                  'harnesses': BITMASK_HARNESSES, 'replay_test': 'verif_replay_gc_bitmask'}],
+                  'harnesses': BITMASK_HARNESSES, 'replay_test': 'verif_replay_gc_bitmask'},
+                 {'unit': 'gc_handles', 'mount': 'src/gc.rs', 'mod': 'verif_kani_gc_handles',
+                  'harnesses': {
+                      'handle_clone_after_heap_drop': {'kind': 'complete', 'fn': 'Gc::clone / Gc::drop (heap already dropped)'},
+                      'guard_ops_after_heap_drop': {'kind': 'complete', 'fn': 'Guard::guard / Guard::drop (heap already dropped)'},
+                  }, 'replay_test': 'verif_replay_gc_handles'}],
         'trusted_base': COMMON_TB,
         'assumptions': [
             'only the mark-bit layer is under contract: Space::mark / sweep / pool_object / Gc clone+drop / Guard are NOT verified',
